@@ -310,6 +310,23 @@ def _run_partition(ctx, case):
     valid = isinstance(pb, str) and pb in VALID
     ctx.case(case, valid and len(s) >= 2)
     judge_partition(ctx, s, d, v, pb, out, exc, "direct")
+    if valid and exc is None and isinstance(out, list) and out and form != "iterator" and (len(s) + len(out)) % 3 == 0:
+        # the groups belong to the caller (who works the triples off by popping them): an equal question asked
+        # afterwards gets the complete answer again
+        try:
+            for g in out:
+                for part in g:
+                    if isinstance(part, list) and part:
+                        part.pop()
+                        part.append("X99")
+        except Exception:
+            return
+        ctx.count("asked_again_after_editing_the_groups")
+        try:
+            out2, exc2 = utils.partition_by_column(_container(s, fs), _container(d, fd), _container(v, fs, numeric=True), pb), None
+        except Exception as e:
+            out2, exc2 = None, e
+        judge_partition(ctx, s, d, v, pb, out2, exc2, "direct, asked again")
 
 
 # ---------------------------------------------------------------------------------------------
